@@ -4,9 +4,9 @@ From C2PA Require Import Model.FsPaths.
 Import ListNotations.
 Open Scope N_scope.
 
+Strategy opaque [canon walk FUEL].
 Arguments canon : simpl never.
 Arguments walk : simpl never.
-Arguments wopen : simpl never.
 Arguments components : simpl never.
 Arguments os_comps : simpl never.
 Arguments normalize_lexically : simpl never.
@@ -24,6 +24,9 @@ Qed.
 
 Lemma loc_prefix_app : forall r x, loc_prefix r (r ++ x) = true.
 Proof. induction r; simpl; intros; [reflexivity|]. rewrite str_eqb_refl. simpl. apply IHr. Qed.
+
+Lemma loc_prefix_refl : forall r, loc_prefix r r = true.
+Proof. intros r. rewrite <- (app_nil_r r) at 2. apply loc_prefix_app. Qed.
 
 Lemma loc_prefix_spec : forall r q, loc_prefix r q = true -> exists x, q = r ++ x.
 Proof.
@@ -197,29 +200,62 @@ Qed.
 
 (* ------------------------------------------------------------------ resolve_within_root *)
 
+Lemma lexical_inside : forall base root id,
+  rooted id = false ->
+  starts_with (normalize_lexically (join base id)) (normalize_lexically (abs root)) = true ->
+  exists x, normalize_lexically (join base id) = abs (root ++ x).
+Proof.
+  intros base root id R SW. rewrite normalize_abs in SW. unfold join in *. rewrite R in *.
+  remember (match components id with CCur :: t0 => t0 | l => l end) as tl.
+  change (abs base ++ tl) with (CRoot :: (map CNormal base ++ tl)) in *.
+  destruct (normalize_rooted (map CNormal base ++ tl)) as [l E]. rewrite E in *.
+  unfold abs in SW. cbn [starts_with comp_eqb andb] in SW.
+  apply starts_with_normals in SW. destruct SW as [x ->]. exists x. reflexivity.
+Qed.
+
+(* resolve_within_root with its tests named, so that the proof below never converts under canon *)
+Lemma resolve_unfold : forall f base root id,
+  resolve_within_root f base root id =
+  match id with
+  | [] => None
+  | _ =>
+    if has_byte BACKSLASH id then None
+    else if rooted id then None
+    else if negb (starts_with (normalize_lexically (join base id)) (normalize_lexically (abs root))) then None
+    else match canon f (join_os base id) with
+         | Some ct => match canon f (abs root) with
+                      | Some cr => if loc_prefix cr ct then Some (join_os base id) else None
+                      | None => None
+                      end
+         | None => Some (join_os base id)
+         end
+  end.
+Proof. intros. destruct id; reflexivity. Qed.
+
 Lemma resolve_some : forall f base root id j,
   resolve_within_root f base root id = Some j ->
   j = join_os base id /\ has_byte BACKSLASH id = false /\ rooted id = false /\
   (exists x, normalize_lexically (join base id) = abs (root ++ x)) /\
   (forall ct, canon f j = Some ct -> exists cr, canon f (abs root) = Some cr /\ loc_prefix cr ct = true).
 Proof.
-  intros f base root id j H. unfold resolve_within_root in H.
+  intros f base root id j H. rewrite resolve_unfold in H.
   destruct id as [|c t]; [discriminate|].
-  destruct (has_byte BACKSLASH (c :: t)) eqn:B; [discriminate|].
-  destruct (rooted (c :: t)) eqn:R; [discriminate|].
-  destruct (starts_with _ _) eqn:SW; cbn [negb] in H; [|discriminate].
-  assert (LEX : exists x, normalize_lexically (join base (c :: t)) = abs (root ++ x)).
-  { rewrite normalize_abs in SW. unfold join in *. rewrite R in *.
-    remember (match components (c :: t) with CCur :: t0 => t0 | l => l end) as tl.
-    change (abs base ++ tl) with (CRoot :: (map CNormal base ++ tl)) in *.
-    destruct (normalize_rooted (map CNormal base ++ tl)) as [l E]. rewrite E in *.
-    unfold abs in SW. cbn [starts_with comp_eqb andb] in SW.
-    apply starts_with_normals in SW. destruct SW as [x ->]. exists x. reflexivity. }
-  destruct (canon f (join_os base (c :: t))) as [ct|] eqn:C.
+  generalize dependent (c :: t). clear c t. intros id H.
+  destruct (has_byte BACKSLASH id) eqn:B; [discriminate|].
+  destruct (rooted id) eqn:R; [discriminate|].
+  destruct (starts_with (normalize_lexically (join base id)) (normalize_lexically (abs root))) eqn:SW;
+    [|discriminate].
+  pose proof (lexical_inside base root id R SW) as LEX.
+  cbv beta iota delta [negb] in H.
+  destruct (canon f (join_os base id)) as [ct|] eqn:C.
   - destruct (canon f (abs root)) as [cr|] eqn:CR; [|discriminate].
-    destruct (loc_prefix cr ct) eqn:P; [|discriminate]. inversion H; subst.
-    repeat split; try assumption. intros ct' E. rewrite C in E. inversion E; subst. exists cr. split; [reflexivity|assumption].
-  - inversion H; subst. repeat split; try assumption. intros ct' E. rewrite C in E. discriminate.
+    destruct (loc_prefix cr ct) eqn:P; [|discriminate].
+    injection H as <-.
+    split; [reflexivity|]. split; [reflexivity|]. split; [reflexivity|]. split; [exact LEX|].
+    intros ct' E. rewrite C in E. injection E as <-. exists cr. split; [reflexivity|exact P].
+  - injection H as <-.
+    split; [reflexivity|]. split; [reflexivity|]. split; [reflexivity|]. split; [exact LEX|].
+    intros ct' E. rewrite C in E. discriminate E.
 Qed.
 
 Definition read_inside (f : fs) (root : loc) (t : touch) : Prop :=
@@ -335,17 +371,16 @@ Proof.
   - destruct (wopen fuel f1 cur [CNormal (last ns [])]) as [q|] eqn:W.
     + inversion H; subst; clear H.
       apply Forall_app in Hf. destruct Hf as [Hf1 Hf2].
-      destruct (mkdirp_inside rr _ _ _ _ _ _ _ M (loc_prefix_app rr []) (Forall_nil _) Hf1) as [G C].
-      rewrite app_nil_r in C.
+      destruct (mkdirp_inside rr _ _ _ _ _ _ _ M (loc_prefix_refl rr) (Forall_nil _) Hf1) as [G C].
       apply Forall_app. split; [assumption|].
       specialize (C _ _ eq_refl).
       destruct (is_link (lookup f1 (cur ++ [last ns []]))) eqn:L; simpl.
       * inversion Hf2; subst. simpl in H1. constructor; [exact I|]. constructor; [simpl; assumption|constructor].
       * rewrite (wopen_last_plain _ _ _ _ _ W L). constructor; [simpl; apply loc_prefix_snoc; assumption|constructor].
     + inversion H; subst.
-      destruct (mkdirp_inside rr _ _ _ _ _ _ _ M (loc_prefix_app rr []) (Forall_nil _) Hf) as [G _]. assumption.
+      destruct (mkdirp_inside rr _ _ _ _ _ _ _ M (loc_prefix_refl rr) (Forall_nil _) Hf) as [G _]. assumption.
   - inversion H; subst.
-    destruct (mkdirp_inside rr _ _ _ _ _ _ _ M (loc_prefix_app rr []) (Forall_nil _) Hf) as [G _]. assumption.
+    destruct (mkdirp_inside rr _ _ _ _ _ _ _ M (loc_prefix_refl rr) (Forall_nil _) Hf) as [G _]. assumption.
 Qed.
 
 (* ResourceStore::add: after the base directory rr has been reached, see write_at_inside *)
